@@ -16,6 +16,7 @@ Own(n)     == [k |-> "own", name |-> n]
 NumA(t)    == [k |-> "atom", c |-> "num", tok |-> t]
 BoolA(t)   == [k |-> "atom", c |-> "bool", tok |-> t]
 StrA(t)    == [k |-> "atom", c |-> "str", tok |-> t]
+ConstA(t)  == [k |-> "atom", c |-> "const", tok |-> t]
 VarR(v)    == [k |-> "var", tok |-> v]
 Fld(r, f)  == [k |-> "fld", ref |-> r, name |-> f]
 RelOpsAll == {"=", "!=", "<", "<=", ">", ">=", "in"}
@@ -108,6 +109,10 @@ Calls ==
   \cup {Call(f, a) : f \in {"bool", "int", "float", "str"}, a \in NumArgs \cup {BoolA("True"), Own("p"), StrA("$s")}}
   \cup {Call(f, a) : f \in {"len", "sum", "prod", "max", "min"}, a \in Compounds}
   \cup {Call("len", StrA("$s"))}
+  \* gcd over collections, negative members included (a singleton's gcd is its absolute value)
+  \cup {Call("gcd", c) : c \in {SetOf(<<Un("-", NumA("4"))>>), SetOf(<<Un("-", NumA("4")), Un("-", Bn("+", NumA("2"), NumA("2")))>>), SetOf(<<NumA("4"), NumA("6")>>),
+                                SetOf(<<NumA("12"), Un("-", NumA("18"))>>), SetOf(<<NumA("0"), Un("-", NumA("5"))>>), SetOf(<<Own("x"), NumA("4")>>), Own("xs"),
+                                Rng("[", NumA("2"), NumA("4"), "]"), SetOf(<<NumA("7")>>)}}
   \* an aggregate nested as a direct member of the set another aggregate ranges over
   \cup {Call(f, SetOf(<<Call(g, c), NumA("0")>>)) : f \in {"max", "min", "sum"}, g \in {"max", "min", "len"},
                                                     c \in {Own("xs"), Rng("[", NumA("0"), Own("y"), "]"), SetOf(<<Own("x"), Own("y")>>), SetOf(<<NumA("1"), NumA("2")>>)}}
